@@ -30,7 +30,22 @@ for root in sys.argv[1:]:
             clean = []
             cpath = os.path.join(d, 'caught.txt')
             if os.path.exists(cpath):
-                for line in open(cpath):
+                # (a record may span lines when a violation message itself contains the word "evaluations": join them)
+                joined, cur = [], None
+                for raw in open(cpath):
+                    raw = raw.rstrip('\n')
+                    if re.match(r'(C\d\d) exit=\d+ ', raw) or raw.startswith('clean_replay ') or raw.startswith('check ') or raw.startswith('HARNESS'):
+                        if cur is not None:
+                            joined.append(cur)
+                        cur = raw
+                    elif cur is not None:
+                        cur += ' ' + raw
+                if cur is not None:
+                    joined.append(cur)
+                for line in joined:
+                    hist = re.match(r'(C\d\d) exit=(\d+) evaluations=violation:.* (\d+) rules=(.*)', line.strip())
+                    if hist:
+                        line = f'{hist.group(1)} exit={hist.group(2)} evaluations={hist.group(3)} rules={hist.group(4)}'
                     cr = re.match(r'clean_replay (\S+) exit=(\d+)', line.strip())
                     if cr:
                         clean.append({'replay': cr.group(1), 'reproduces_on_unchanged_tree': cr.group(2) != '0'})
